@@ -323,3 +323,34 @@ func vFastParams() GossipSubParams {
 	p.HeartbeatInterval = time.Second
 	return p
 }
+
+// vScores is a thread-safe application-specific score table (read by the
+// event loop, written by the harness).
+type vScores struct {
+	mu sync.Mutex
+	m  map[peer.ID]float64
+}
+
+func newVScores() *vScores { return &vScores{m: map[peer.ID]float64{}} }
+
+func (s *vScores) Get(p peer.ID) float64 {
+	s.mu.Lock()
+	defer s.mu.Unlock()
+	return s.m[p]
+}
+
+func (s *vScores) Set(p peer.ID, v float64) {
+	s.mu.Lock()
+	s.m[p] = v
+	s.mu.Unlock()
+}
+
+func (s *vScores) Copy() map[peer.ID]float64 {
+	s.mu.Lock()
+	defer s.mu.Unlock()
+	out := make(map[peer.ID]float64, len(s.m))
+	for k, v := range s.m {
+		out[k] = v
+	}
+	return out
+}
